@@ -152,16 +152,44 @@ def run_one(rac, hist):
             attempt()
         except Exception:       # noqa  (what each must raise is checked above; here only the after-effects matter)
             pass
-    w.m.unfreeze_tree()
-    follow = [("expr", ("c",), "sum", (("a",), ("b",))), ("val", ("a",), -3.5), ("unreg", ("c",)), ("val", ("b",), 8.0)]
+    # plain-value assignments made WHILE frozen (same ones on the never-frozen twin) ...
     fo = G.Oracle()
     for op in hist:
         fo.apply(op)
     key = f"unfreeze [{hs}]"
+    free = [l for l in G.LOCS if l not in orc.defs]
+    during = [("val", loc, 2.75 + i) for i, loc in enumerate(free[:3])]
+    applied = []
+    for op in during:
+        if not G.legal(fo, op):
+            continue
+        fo.apply(op)
+        applied.append(op)
+        try:
+            w.apply(op)
+            twin.apply(op)
+        except Exception:       # noqa (checked above)
+            pass
+    w.m.unfreeze_tree()
+    # ... then, unfrozen: definitions removed by plain values, the same inputs assigned again, new definitions
+    follow = [("val", loc, 9.5) for loc in sorted(orc.defs)[:2]] + [("val", loc, -1.25 - i) for i, loc in enumerate(free[:3])]
+    follow += [("expr", ("c",), "sum", (("a",), ("b",))), ("val", ("a",), -3.5), ("unreg", ("c",)), ("val", ("b",), 8.0)]
+    done = []
+
+    def twin_script():
+        tail = lambda ops: G.history_script(ops).split("r = m.ref(d, 'd')\n")[1]
+        return (SNAP_SRC + f"SRC_HIST = {G.history_script(hist)!r}\nSRC_DURING = {tail([o for o in during if o in applied])!r}\n"
+                f"SRC_FOLLOW = {tail(done)!r}\n"
+                "def run(frozen):\n    env = {}\n    exec(SRC_HIST, env)\n    m, r = env['m'], env['r']\n    if frozen:\n        m.freeze_tree()\n"
+                "        for att in (lambda: r.__setitem__('zz_new', r['a'] * 2), lambda: m.unregister(r['b']), lambda: m.refresh()):\n"
+                "            try:\n                att()\n            except Exception:\n                pass\n"
+                "    exec(SRC_DURING, env)\n    if frozen:\n        m.unfreeze_tree()\n    exec(SRC_FOLLOW, env)\n    return snap(m, env['d'])\n"
+                "a, b = run(True), run(False)\nassert a == b, [(k, a[k], b[k]) for k in a if a[k] != b[k]]\n")
     for op in follow:
         if not G.legal(fo, op):
             continue
         fo.apply(op)
+        done.append(op)
         try:
             w.apply(op)
             twin.apply(op)
@@ -171,8 +199,8 @@ def run_one(rac, hist):
                      "Manager.unfreeze_tree")
             break
         if snap(w.m, w.data) != snap(twin.m, twin.data):
-            rac.fail(key, f"C17 {key}: after unfreeze, {G.opstr(op)} behaves differently from a never-frozen twin",
-                     script(hist, ""), "Manager.unfreeze_tree")
+            rac.fail(key, f"C17 {key}: after plain assignments while frozen ({'; '.join(G.opstr(o) for o in during)}) and unfreeze, "
+                     f"{G.opstr(op)} behaves differently from a never-frozen twin", twin_script(), "Manager.unfreeze_tree")
             break
     rac.case((tuple(hist), "unfreeze"), nontrivial=nt, sample=dict(history=hs, call="freeze/unfreeze/follow-up"))
     return True
